@@ -11,6 +11,7 @@ from gen import mutate
 LEVEL_NOTE = [
     "C02_full (every operator of the violation catalogue of DESIGN §4.2, at every applicable site of every conforming program, yields its code on the edited line) is NOT proved. Proved fragments (C02.v82_line_too_long, counters_fire, verdict_error and by import C13.reject_no_header, C14.*): the rule emits the code when the statement it is handed contains the pattern — for line length, header, include guard and the four counters; verdict and exit status follow from C04 once an Error-level diagnostic exists",
     "end to end, for EVERY rule table (C02.ternary_e2e / ternary_sound, C03.long_line_reported): in every file that reaches a verdict each `?` token gets TERNARY_FBIDDEN at its position and each over-long line ending in a newline token gets LINE_TOO_LONG — CheckTernary and CheckLineLen run after every matched primary and the statements tile the token list (C07); tie: `always` stream (source -> model lexer -> engine replaying the observed decisions -> the two checks, compared with what the real rules emitted)",
+    "C02.trailing_space_e2e (V01): for every rule table a trailing blank run starting with a SPACE gets SPC_BEFORE_NL at that SPACE (CheckSpacing ported completely; loop reachability lemma); tie: `always` stream incl. random blank-space perturbations",
     "decision per (program, operator, site): the catalogue oracle runs the real pipeline on the edited program and looks for the operator's code on the edited line (harness/gen/mutate.py: 90 operators, validated on the unchanged tool; site classes where the tool is silent are listed in mutate.INCONSISTENT, recorded as known findings and replayed on every run)",
 ]
 PARTIAL = [
@@ -102,7 +103,8 @@ def run(res, tier, br, model_ok=True, search=False):
         e2e = []
         for op in mutate.OPERATORS:
             codes = op.code if isinstance(op.code, (tuple, list, set)) else (op.code,)
-            if not ({"TERNARY_FBIDDEN", "LINE_TOO_LONG"} & set(codes)):
+            if not ({"TERNARY_FBIDDEN", "LINE_TOO_LONG", "INVALID_HEADER", "MIXED_SPACE_TAB", "SPACE_EMPTY_LINE",
+                     "SPACE_REPLACE_TAB", "SPC_BEFORE_NL", "CONSECUTIVE_SPC"} & set(codes)):
                 continue
             for p in progs[: (12 if big else 4)]:
                 try:
@@ -112,6 +114,8 @@ def run(res, tier, br, model_ok=True, search=False):
                 except Exception:
                     pass
         e2e += [(name, text) for name, text, code, line in families.extra_violating() if code in ("TERNARY_FBIDDEN", "LINE_TOO_LONG")]
+        for p in progs[: (20 if big else 6)]:
+            e2e += [(p.name, t) for t in alwayscorr.whitespace_variants(rng, p.text, 12 if big else 5)]
         alwayscorr.check(res, e2e)
     res.streams["catalogue"]["operators"] = len(mutate.OPERATORS)
     res.streams["catalogue"]["operators_hit"] = len(hits)
